@@ -55,6 +55,27 @@ def compile_many(jobs):
 
 GRAM_FLAGS = ['-std=c++17', '-O1', '-DCTPG_VERIF', '-fno-access-control', '-I' + os.path.join(REPO, 'include'), '-I' + os.path.join(VERIF, 'engines')]
 
+RX_FLAGS = ['-std=c++17', '-O1', '-DCTPG_VERIF', '-fno-access-control', '-I' + os.path.join(REPO, 'include'), '-I' + os.path.join(VERIF, 'engines')]
+
+def build_single(name, main_src, extra_srcs, flags, compiler='g++'):
+    srcs = [main_src] + extra_srcs
+    d = build_dir(name, srcs, flags + [compiler])
+    exe = os.path.join(d, name)
+    if os.path.exists(exe): return exe
+    tmp = d + '.tmp%d' % os.getpid()
+    shutil.rmtree(tmp, ignore_errors=True); os.makedirs(tmp)
+    r = sh([compiler] + flags + [main_src, '-o', os.path.join(tmp, name)])
+    if r.returncode != 0:
+        shutil.rmtree(tmp, ignore_errors=True)
+        return ('COMPILE-FAIL', (r.stdout + r.stderr)[-3000:])
+    if os.path.exists(d): shutil.rmtree(tmp, ignore_errors=True)
+    else: os.rename(tmp, d)
+    return exe
+
+def build_rx():
+    e = os.path.join(VERIF, 'engines'); r = os.path.join(VERIF, 'ref')
+    return build_single('rx', os.path.join(e, 'rx_main.cpp'), [os.path.join(e, 'jsonw.hpp'), os.path.join(r, 'regex.hpp'), os.path.join(r, 'lr1.hpp')], RX_FLAGS)
+
 def build_gram(setname):
     srcs = [os.path.join(VERIF, 'engines', f) for f in ('gram_frame.hpp', 'gram_main.cpp', 'jsonw.hpp')] + [os.path.join(VERIF, 'ref', 'lr1.hpp'), os.path.join(VERIF, 'gen', 'gram_frames.py')]
     d = build_dir('gram_' + setname, srcs, GRAM_FLAGS)
@@ -82,14 +103,24 @@ def build_gram(setname):
 
 # ----------------------------------------------------------------------------- known findings
 def load_known():
-    known = {}   # (prop, key) -> description
+    """known[(prop, key)] = description; a finding may carry instances=<file>: one instance key per line, each
+    mapping to the finding's family key (instances[(prop, instance_key)] = family key)."""
+    known = {}; instances = {}
     path = os.path.join(VERIF, 'known_findings.txt')
     if os.path.exists(path):
         for line in open(path):
             line = line.strip()
-            m = re.match(r'finding:\s+property=(\S+)\s+key=(\S+)\s+(.*)', line)
-            if m: known[(m.group(1), m.group(2))] = m.group(3)
-    return known
+            m = re.match(r'finding:\s+property=(\S+)\s+key=(\S+)\s+(?:instances=(\S+)\s+)?(.*)', line)
+            if not m: continue
+            prop, key, inst, desc = m.groups()
+            known[(prop, key)] = desc
+            if inst:
+                ip = os.path.join(VERIF, inst)
+                if os.path.exists(ip):
+                    for l in open(ip):
+                        l = l.strip()
+                        if l and not l.startswith('#'): instances[(prop, l.split()[0])] = key
+    return known, instances
 
 # ----------------------------------------------------------------------------- gram engine runs
 def run_shards(exe, args, outdir, nshards=None, timeout=None):
